@@ -8,6 +8,8 @@ checks = []
 claimed = set()
 for p in sorted(glob.glob(os.path.join(ROOT, "checks", "C*.json"))):
     c = json.load(open(p))
+    if not isinstance(c, dict) or "id" not in c:
+        continue  # auxiliary reviewed data of a check (e.g. checks/C09-sites.json), not a check configuration
     pid = c["id"]
     claimed.add(pid)
     checks.append({
